@@ -326,3 +326,18 @@ func consumeAllowed(flowN int32, hasConn bool, connN int32, n int32, maxFrame in
 //@   ensures  f.StreamID != 0 ==> sc.flow.n == old(sc.flow.n)
 //@   assert at call add: $n == int32(f.Increment)
 //@   noframe
+
+// processSettingInitialWindowSize: every stream window it visits moves by exactly the difference
+// between the new and the old initial window size (nothing else adjusts it), an overflow yields a
+// FLOW_CONTROL connection error, and the new initial size is recorded. (That every stream is
+// visited is the semantics of range over the stream map, which is not modelled.)
+//
+//@ func (*serverConn).processSettingInitialWindowSize(sc, val) (err)
+//@   requires sc != nil
+//@   requires forall id uint32 :: sc.streams[id] != nil
+//@   ensures  err == nil ==> sc.initialStreamSendWindowSize == int32(val)
+//@   ensures  err != nil ==> hastype(err, ConnectionError) && err.(ConnectionError) == ConnectionError(ErrCodeFlowControl)
+//@   loop 1 invariant sc.initialStreamSendWindowSize == int32(val) && growth == int32(val) - old(sc.initialStreamSendWindowSize)
+//@   loop 1 step int64(st.flow.n) == int64(atiter(st.flow.n)) + int64(growth)
+//@   assert at call add: $n == growth
+//@   noframe
